@@ -60,6 +60,7 @@ type SQLSite struct {
 	Named       map[string]Binding // named arguments ($X / @x), incl. synthetic ones
 	DynamicArgs bool
 	Holes       int
+	FormatHoles int    // caller text interpolated into a Sprintf format string
 	IsSchema    bool   // executes the embedded schema script
 	evalFrame   *frame // when set, positional bindings are evaluated in this calling context
 }
@@ -162,6 +163,7 @@ func (m *Model) foldSite(site *SQLSite, args []ssa.Value) {
 		return
 	}
 	site.Holes = ev.holes
+	site.FormatHoles = ev.fmtHoles
 	for name, b := range ev.synth {
 		site.Named[name] = Binding{V: b.v, Fr: b.fr}
 	}
